@@ -96,7 +96,11 @@ package main
 //@     do gerr = ret1
 //@   ensures[C20:healthy-iff-200] r0 == nil <==> (gerr == nil && got.StatusCode == 200)
 
+// Configuration assumption (flag value): the health-check interval in seconds times 10^9 fits in 63 bits (under 292 years);
+// beyond that the duration wraps around and time.NewTicker panics on a non-positive interval.
+//@ pure sensibleInterval() bool = *healthCheckFreq <= 9223372036
 //@ func waitForHealthy props(C20)
+//@   requires sensibleInterval()
 //@   assigns nothing
 //@   ghost lastOK bool = false
 //@   call healthCheck
@@ -104,6 +108,7 @@ package main
 //@   ensures[C20:returns-only-after-passing-check] *healthCheckFreq > 0 ==> lastOK
 
 //@ func runHealthChecks props(C20)
+//@   requires sensibleInterval()
 //@   ghost consec int = 0
 //@   call healthCheck
 //@     do consec = ite(ret0 != nil, consec + 1, 0)
@@ -143,6 +148,10 @@ package main
 // cancellable polling context, not the process context; on a shutdown signal with a grace period the polling context
 // is cancelled before the grace period starts.
 //@ func main props(C20)
+// (the flag values are fixed once parsed; the assumption is placed after the last start-up call that the engine
+// cannot see through)
+//@   call metrics.NewMetricHandler
+//@     assume sensibleInterval()
 //@   ghost healthy int = 0
 //@   ghost cancelled int = 0
 //@   ghost adapters int = 0
